@@ -1019,7 +1019,7 @@ func run(c *core.Ctx) {
 			c.Violate("death:ref:"+a.name(idx), fmt.Sprintf("generating %s in a fresh process kills the process (%s): %s", a.name(idx), how, lastLines(tail)), replayCase{Kind: "fresh", Grammar: a.name(idx), Gmp: 16, Mode: "ctl"})
 		}})
 	phaseSecs := map[string]float64{}
-	phaseStart := time.Now()
+	phaseStart := c.Start
 	endPhase := func(name string) {
 		phaseSecs[name] += float64(int(time.Since(phaseStart).Seconds()*10)) / 10
 		phaseStart = time.Now()
